@@ -1298,6 +1298,8 @@ static void gen_wrap_outside_directed()
 static std::string gen_rules_ext(hv::rng &r, int n, i64 now, const std::vector<i64> &ivs, bool &nested, std::vector<bool> &hasiv)
 {
     std::vector<bool> destroyed(n, false);
+    bool later = false; // a nested exec with a LATER time is in the rules: no rule may then repeat for every callback
+                        // (a plan "after now" repeated by every callback can lie before the nested time: endless loop)
     std::string s;
     int nr = (int)r.range(1, 3);
     for (int q = 0; q < nr; q++)
@@ -1310,6 +1312,7 @@ static std::string gen_rules_ext(hv::rng &r, int n, i64 now, const std::vector<i
         int j = (int)r.below(n);
         if (n > 1 && j == id && r.chance(50)) j = (j + 1) % n;
         i64 iv = r.pick(ivs);
+        if (later) anyk = false;
         if (m < 46) anyk = false; // a setter / plan(tim) repeated by EVERY callback can pin a deadline in the past: exec would never return
         if (m < 14) acts = "s" + S(j) + "." + S(now - (i64)r.below(5));
         else if (m < 26) acts = "i" + S(j) + "." + S(iv);
@@ -1335,6 +1338,11 @@ static std::string gen_rules_ext(hv::rng &r, int n, i64 now, const std::vector<i
             nested = true;
             anyk = false;
             i64 now2 = now + (r.chance(50) ? 0 : (i64)r.below(9)) - (r.chance(15) ? 3 : 0);
+            if (now2 > now)
+            {
+                if (s.find("@*") != std::string::npos) now2 = now;
+                else later = true;
+            }
             if (r.chance(50)) acts = "u" + S(id) + ",x" + S(now2);
             else acts = "p" + S(id) + "." + S(std::max(now, now2)) + "." + S(iv) + ",x" + S(now2);
         }
